@@ -1,7 +1,7 @@
 """Option-builder validation rules (C15 SIB-options, C17 MPT-ascii): both float Options builders
 reject non-ASCII punctuation and malformed special strings, under the same constraints."""
 from rules.core import (path_conditions, reach_alternatives, op_expr, show, strip_casts, expr_calls, expr_consts,
-                        callee_name, last_seg, AnchorMissing)
+                        callee_name, last_seg, AnchorMissing, rvalue_expr)
 from rules.syntax import error_sites
 
 
@@ -177,6 +177,62 @@ def rule_is_valid_agrees_with_build(col, facts, crate):
     rb = rejecting(fb, "Err")
     rv_ = rejecting(fv, False)
     have = {(e, p) for e, p, _l in rv_}
+    import re as _re
+
+    def canon(e, p):
+        """A comparison atom in a canonical form: polarity True, operator in {Lt, Le, Eq}, integer bounds `x < c`."""
+        e = strip_casts(e)
+        if not (isinstance(p, bool) and e[0] == "bin" and e[1] in ("Lt", "Le", "Gt", "Ge", "Eq", "Ne")):
+            return (e, p)
+        op, a, b = e[1], e[2], e[3]
+        if not p:
+            op = {"Lt": "Ge", "Ge": "Lt", "Gt": "Le", "Le": "Gt", "Eq": "Ne", "Ne": "Eq"}[op]
+        if op in ("Gt", "Ge"):
+            op, a, b = {"Gt": "Lt", "Ge": "Le"}[op], b, a
+        # integers: `x <= c` is `x < c + 1`, `c <= x` is `c - 1 < x`
+        if op == "Le" and strip_casts(b)[0] == "k" and isinstance(strip_casts(b)[1], int):
+            op, b = "Lt", ("k", strip_casts(b)[1] + 1)
+        elif op == "Le" and strip_casts(a)[0] == "k" and isinstance(strip_casts(a)[1], int):
+            op, a = "Lt", ("k", strip_casts(a)[1] - 1)
+        return (("bin", op, G.norm(strip_casts(a)), G.norm(strip_casts(b))), True)
+
+    def fields_of(e):
+        return set(_re.findall(r"self\.\*\.(\d+)", show(e) + " " + repr(e)))
+    have_c = {canon(e, p) for e, p, _l in rv_}
+    # every comparison is_valid makes anywhere (also inside one big `&&`), for the field-level fallback
+    tested_fields = set()
+    for i, b in enumerate(fv.blocks):
+        if fv.live(i) and b["t"]["k"] == "switch":
+            tested_fields |= fields_of(op_expr(fv, b["t"]["d"]))
+        for st in b["s"]:
+            if st[0] == "=" and st[2][0] == "bin":
+                tested_fields |= fields_of(rvalue_expr(fv, st[2], 0))
+    # ... and in the helper methods it hands `self` to (`self.nan_str_is_valid()`), two levels deep
+    def helper_fields(g, depth=0, seen=None):
+        seen = seen if seen is not None else set()
+        out = set()
+        if g.short in seen or depth > 2:
+            return out
+        seen.add(g.short)
+        for i, b in enumerate(g.blocks):
+            if g.live(i) and b["t"]["k"] == "switch":
+                out |= fields_of(op_expr(g, b["t"]["d"]))
+            for st in b["s"]:
+                if st[0] == "=" and st[2][0] in ("bin", "use", "ref"):
+                    out |= fields_of(rvalue_expr(g, st[2], 0))
+        for _b, c, a, _d, _t in g.calls():
+            for x in a:
+                out |= fields_of(op_expr(g, x))
+            for h in facts.by_short.get(callee_name(c), []):
+                if h.crate == g.crate:
+                    out |= helper_fields(h, depth + 1, seen)
+        return out
+    all_calls_v = set()
+    for _b, c, _a, _d, _t in fv.calls():
+        all_calls_v.add(last_seg(callee_name(c)))
+        for h in facts.by_short.get(callee_name(c), []):
+            if h.crate == fv.crate:
+                tested_fields |= helper_fields(h)
     n = 0
     strings = False
     for e, p, loc in rb:
@@ -185,10 +241,17 @@ def rule_is_valid_agrees_with_build(col, facts, crate):
             strings = True
             continue
         n += 1
+        if (e, p) not in have and canon(e, p) in have_c:
+            continue                    # the same test, written the other way round (`min <= max` for `!(max < min)`, `>= 1` for `> 0`)
+        if (e, p) not in have and fields_of(e) and fields_of(e) <= tested_fields:
+            # is_valid does test these fields, in a form this comparison of two spellings cannot line up (one `&&`
+            # expression, a helper): not decided
+            col.assumed("not-applied", "SIB-valid:%s:%s" % (crate.replace("lexical_", ""), show(e)[:70]), "build() rejects on `%s`; is_valid() tests the same field(s) in another form: agreement not decided" % show(e)[:80], loc)
+            continue
         col.check(R, "%s:%s" % (crate.replace("lexical_", ""), show(e)[:70]), (e, p) in have,
                   "build() rejects the options when `%s` is %s, but is_valid() has no such test: options that cannot be built are reported valid (Options::is_valid(), which the writers' debug assertions and users of the setters rely on, says true)" % (show(e)[:100], p), loc)
     if strings:
-        sv = {last_seg(c[1]) for e, p, _l in rv_ for c in expr_calls(e)}
+        sv = {last_seg(c[1]) for e, p, _l in rv_ for c in expr_calls(e)} | all_calls_v
         col.check(R, "%s:special-strings" % crate.replace("lexical_", ""), any(x.endswith("_str_is_valid") or x.endswith("_string_is_valid") for x in sv) or any(("unwrap_str" in show(e)) for e, p, _l in rv_),
                   "build() validates the special strings but is_valid() never consults a string validator (tests: %s)" % sorted(sv), fv.loc())
     return n
